@@ -96,7 +96,10 @@ impl Needles {
 
 fn check_leak(ctx: &mut Ctx, sc: &Scenario) -> Res {
     let needles = Needles::new(&sc.seed.0);
-    let cfg = LabCfg { seed: sc.seed.0.clone(), batch_size: sc.batch_size, fault: sc.fault, client_stats: false, ..Default::default() };
+    let mut cfg = LabCfg { seed: sc.seed.0.clone(), batch_size: sc.batch_size, fault: sc.fault, client_stats: false, ..Default::default() };
+    if sc.interval_ms > 0 {
+        cfg.status_interval = std::time::Duration::from_millis(sc.interval_ms as u64);
+    }
     let _ = take_logs();
     let mut lab = match Lab::new(cfg, 16) {
         Ok(l) => l,
@@ -108,6 +111,15 @@ fn check_leak(ctx: &mut Ctx, sc: &Scenario) -> Res {
     let mut kinds = (false, false);
     let mut sentinel_nonce_prefixes = vec![];
     for step in &sc.steps {
+        if sc.interval_ms > 0 {
+            // a few status intervals of uptime before the traffic (whatever the server does periodically gets to happen)
+            let end = std::time::Instant::now() + std::time::Duration::from_millis(3 * sc.interval_ms as u64);
+            while std::time::Instant::now() < end {
+                if let Err(p) = lab.idle_pump(1) {
+                    return ctx.fail(format!("process-events-panic|{}", panic_site(&p)), p);
+                }
+            }
+        }
         let sent = materialize(&lab, step, 16);
         for s in &sent {
             if s.standard.is_some() {
@@ -159,7 +171,7 @@ fn check_leak(ctx: &mut Ctx, sc: &Scenario) -> Res {
 fn scenario() -> impl Strategy<Value = Scenario> {
     let dg = prop_oneof![3 => std_req().prop_map(Dgram::Std), 2 => any_dgram()];
     let step = vec_of((0u8..16, dg).prop_map(|(sock, d)| Send { sock, d }).boxed(), 1usize..=12);
-    (seed32(), prop::sample::select(vec![1u8, 2, 8, 64]), prop_oneof![2 => Just(0u8), 1 => 1u8..=50], proptest::collection::vec(step, 1..=3)).prop_map(|(seed, batch_size, fault, steps)| Scenario { ipv6: false, seed, batch_size, fault, stats: false, steps })
+    (seed32(), prop::sample::select(vec![1u8, 2, 8, 64]), prop_oneof![2 => Just(0u8), 1 => 1u8..=50], proptest::collection::vec(step, 1..=3)).prop_map(|(seed, batch_size, fault, steps)| Scenario { health_burst: 0, interval_ms: if seed.0[31] % 12 == 0 { 20 } else { 0 }, ipv6: false, seed, batch_size, fault, stats: false, steps })
 }
 
 /// configuration loading in-process (file and ENV), valid and invalid variants, under the capturing logger
